@@ -211,7 +211,17 @@ class Impl:
         return "ok"
 
     def _nodes(self, k, rest):
-        return [self.I(int(x)) for x in rest[:int(k)]]
+        # "nodes : iterable container": the same node sequence as a list, a tuple, a one-shot iterator or a generator
+        ns = [self.I(int(x)) for x in rest[:int(k)]]
+        self._nform = getattr(self, "_nform", 0) + 1
+        form = (self._nform + len(ns)) % 4
+        if form == 1:
+            return tuple(ns)
+        if form == 2:
+            return iter(ns)
+        if form == 3:
+            return (n for n in ns)
+        return ns
 
     def op_path(self, s, t, k, *rest):
         self.G(s).add_path(self._nodes(k, rest), t=tok(t)); return "ok"
@@ -629,9 +639,11 @@ class Impl:
     def op_nlrt2(self, src, dst):
         """custom attrs['id'] (impl only)"""
         G = self.G(src)
-        at = dict(id="name", source="source", target="target")
+        # the documented attrs argument, same dictionary on both sides: only the id key, all three keys, only the end points
+        at = (dict(id="name", source="source", target="target"), dict(id="key", source="from", target="to"),
+              dict(id="id", source="s", target="t"))[(len(G._node) + int(dst)) % 3]
         d = json.loads(json.dumps(node_link_data(G, attrs=at)))
-        if any("id" in n or "name" not in n for n in d["nodes"]):
+        if any((at["id"] != "id" and "id" in n) or at["id"] not in n for n in d["nodes"]):
             return "custom-id-ignored"
         self.slots[int(dst)] = node_link_graph(d, attrs=at)
         return "ok"
